@@ -142,13 +142,57 @@ fn btree_rounds() -> Scenario {
 	scenario("btree/grow-and-shrink-rounds", ColSpec::btree(), vec![ins, del, del_most], 4, 1, false)
 }
 
+/// two index growths queued behind each other: from a full index page, the 65th key starts a growth (16 -> 17 bits);
+/// before any migration 64 more keys of the same page follow and overflow the page of the 17-bit index (17 -> 18 bits)
+/// while the first old index is still waiting; then everything is drained (both migrations) and the files are parsed
+fn growth_queued() -> Scenario {
+	use crate::props::c09::page_key;
+	const C: u16 = 0x1234;
+	let mut spec = ColSpec::hash();
+	spec.uniform = true;
+	let mut cfg = Config::new(vec![spec]);
+	cfg.salt = 0;
+	let val = |i: u32| B::pat(8 + (i % 3) * 20, 7000 + i);
+	let fill: Tx = (0..64u8).map(|i| (0u8, Op::Set(page_key(C, i), val(i as u32)))).collect();
+	let a: Tx = vec![(0, Op::Set(page_key(C, 64), val(64)))];
+	let b: Tx = (65..129u8).map(|i| (0u8, Op::Set(page_key(C, i), val(i as u32)))).collect();
+	let alpha = vec![a, b];
+	let mut all = alpha.clone();
+	all.push(fill.clone());
+	let mut s = Scenario::new("hash/two-index-growths-queued", cfg.clone(), alpha);
+	s.universe = universe_of(&cfg, &all, &[]);
+	s.init = vec![Ev::Commit(fill), Ev::Drain];
+	s.max_commits = 2;
+	s.max_rejects = 0;
+	s.max_reopen = 1;
+	s.check_iter_rc = false;
+	s.pm = false;
+	s.stages = vec![St::P];
+	s.drain_event = true;
+	s.post = Some(structure_post());
+	// commit A, P, commit B, P, drain, reopen: one path
+	s.filter = Some(Arc::new(|hist: &[Ev], ev: &Ev| {
+		let commits = hist.iter().filter(|e| matches!(e, Ev::Commit(_))).count();
+		match (hist.last(), ev) {
+			(None, Ev::Commit(t)) => t.len() == 1,
+			(Some(Ev::Commit(_)), Ev::Stage(St::P)) => true,
+			(Some(Ev::Stage(St::P)), Ev::Commit(t)) => commits == 1 && t.len() > 1,
+			(Some(Ev::Stage(St::P)), Ev::Drain) => commits == 2,
+			(Some(Ev::Drain), Ev::Reopen) => true,
+			_ => false,
+		}
+	}));
+	s
+}
+
 pub fn run(tier: &str) -> ! {
 	let mut run = Run::new("C14", tier, "model_checking");
 	let budget = Budget::new(if tier == "thorough" { 5000.0 } else { 150.0 });
-	run.set("rule", json!("graph search over insert / overwrite-across-size-classes / remove histories (2-3 keys x {5 B, 300 B, 9000 B chained}; set/ref/deref on a counting column; trees sharing nodes, dereferenced in every order; a btree grown to depth >= 2 and shrunk again), the pipeline drained after every commit (plus stage-interleaved variants), with reopen; at every quiescent state an independent parser reads the files: free lists acyclic, in range, tombstones only; every index entry resolves to a keyed value (inert leftovers only after growth); btree walked from its header: keys strictly ascending, every leaf at the recorded depth, values read; tree nodes walked from the roots, parents counted and compared with the ref-count table; every slot below each table's fill mark is in exactly one live chain or on the free list exactly once (no leak, no double use); counts and values equal the model's. A crash scenario runs the same parser after recovery + clean drop"));
+	run.set("rule", json!("graph search over insert / overwrite-across-size-classes / remove histories (2-3 keys x {5 B, 300 B, 9000 B chained}; set/ref/deref on a counting column; trees sharing nodes, dereferenced in every order; a btree grown to depth >= 2 and shrunk again; two index growths queued behind each other and then drained), the pipeline drained after every commit (plus stage-interleaved variants), with reopen; at every quiescent state an independent parser reads the files: free lists acyclic, in range, tombstones only; every index entry resolves to a keyed value (inert leftovers only after growth); btree walked from its header: keys strictly ascending, every leaf at the recorded depth, values read; tree nodes walked from the roots, parents counted and compared with the ref-count table; every slot below each table's fill mark is in exactly one live chain or on the free list exactly once (no leak, no double use); counts and values equal the model's. A crash scenario runs the same parser after recovery + clean drop"));
 	run.assumptions = vec!["the parser is written from the format comments and shares no code with the implementation; size classes come from a hook and are cross-checked against file names and sizes".into()];
 	let mut scns = scenarios(tier);
 	scns.push(btree_rounds());
+	scns.push(growth_queued());
 	// after crash recovery
 	let hash_crash_alpha: Vec<Tx> = if tier == "thorough" { kv_alphabet(1) } else { kv_alphabet(1).into_iter().skip(1).collect() };
 	let mut c = scenario("hash/after-crash-recovery-n2", ColSpec::hash(), hash_crash_alpha, 2, 0, true);
